@@ -24,6 +24,20 @@ type csec struct {
 }
 
 func overlaps(a, b string) bool {
+	// slice-level accesses carry the element range they touch: "*lo:hi" ("*" alone = the whole object)
+	if strings.HasPrefix(a, "*") && strings.HasPrefix(b, "*") {
+		if a == "*" || b == "*" {
+			return true
+		}
+		var alo, ahi, blo, bhi int
+		if n, _ := fmt.Sscanf(a, "*%d:%d", &alo, &ahi); n != 2 {
+			return true
+		}
+		if n, _ := fmt.Sscanf(b, "*%d:%d", &blo, &bhi); n != 2 {
+			return true
+		}
+		return alo < bhi && blo < ahi
+	}
 	return strings.HasPrefix(a, b) || strings.HasPrefix(b, a)
 }
 
@@ -89,7 +103,13 @@ func (in *Interp) raceCheck(events []Event) []raceFinding {
 						continue
 					}
 					in.raceStats.candidatePairs++
-					smt, sig := raceQuery(t1, ai, t2, bi)
+					var others [][]Event
+					for k := range tids {
+						if k != i && k != j {
+							others = append(others, byT[tids[k]])
+						}
+					}
+					smt, sig := raceQuery(t1, ai, t2, bi, others)
 					if seenSig[sig+"|"+fmt.Sprint(a.Obj, a.Path, b.Path, a.Kind, b.Kind)] {
 						continue
 					}
@@ -116,7 +136,9 @@ func (in *Interp) raceCheck(events []Event) []raceFinding {
 
 // raceQuery builds the clock problem for access ai of thread trace t1 and access bi of t2.
 // Only mutex events and the two accesses are kept. sig is a canonical signature for caching.
-func raceQuery(t1 []Event, ai int, t2 []Event, bi int) (string, string) {
+// The synchronisation events of the other threads take part too (an ordering may run through a third
+// thread: its critical section after the writer's, its atomic store read by the reader).
+func raceQuery(t1 []Event, ai int, t2 []Event, bi int, others [][]Event) (string, string) {
 	var sb, sig strings.Builder
 	type ev struct {
 		name  string
@@ -139,8 +161,12 @@ func raceQuery(t1 []Event, ai int, t2 []Event, bi int) (string, string) {
 	}
 	e1 := trim(t1, ai, "a")
 	e2 := trim(t2, bi, "b")
+	lists := [][]ev{e1, e2}
+	for k, o := range others {
+		lists = append(lists, trim(o, -1, fmt.Sprintf("o%d_", k)))
+	}
 	var all []string
-	for _, es := range [][]ev{e1, e2} {
+	for _, es := range lists {
 		for i, e := range es {
 			fmt.Fprintf(&sb, "(declare-const %s Int)\n", e.name)
 			all = append(all, e.name)
@@ -167,22 +193,32 @@ func raceQuery(t1 []Event, ai int, t2 []Event, bi int) (string, string) {
 		}
 		return out
 	}
-	for _, c1 := range sections(e1) {
-		for _, c2 := range sections(e2) {
-			if c1.mutex == c2.mutex && !(c1.read && c2.read) {
-				fmt.Fprintf(&sb, "(assert (or (< %s %s) (< %s %s)))\n", e1[c1.rel].name, e2[c2.acq].name, e2[c2.rel].name, e1[c1.acq].name)
+	for x := 0; x < len(lists); x++ {
+		for y := x + 1; y < len(lists); y++ {
+			lx, ly := lists[x], lists[y]
+			for _, c1 := range sections(lx) {
+				for _, c2 := range sections(ly) {
+					if c1.mutex == c2.mutex && !(c1.read && c2.read) {
+						fmt.Fprintf(&sb, "(assert (or (< %s %s) (< %s %s)))\n", lx[c1.rel].name, ly[c2.acq].name, ly[c2.rel].name, lx[c1.acq].name)
+					}
+				}
 			}
 		}
 	}
 	// reads-from of atomic loads is preserved: the observed store precedes the load
-	for _, pair := range [][2][]ev{{e1, e2}, {e2, e1}} {
-		for _, st := range pair[0] {
-			if st.kind != "ast" {
+	for x := range lists {
+		for y := range lists {
+			if x == y {
 				continue
 			}
-			for _, ld := range pair[1] {
-				if ld.kind == "ald" && ld.mutex == st.mutex && ld.seq == st.seq {
-					fmt.Fprintf(&sb, "(assert (< %s %s))\n", st.name, ld.name)
+			for _, st := range lists[x] {
+				if st.kind != "ast" {
+					continue
+				}
+				for _, ld := range lists[y] {
+					if ld.kind == "ald" && ld.mutex == st.mutex && ld.seq == st.seq {
+						fmt.Fprintf(&sb, "(assert (< %s %s))\n", st.name, ld.name)
+					}
 				}
 			}
 		}
